@@ -308,7 +308,7 @@ def gen_program(rng, nf=None, steps=None):
                 sim.kinds.add("rejected-yield-outside")
                 sim.raise_()
         else:
-            if sim.depth[me] == 0 and (me != 0 or rng.random() < 0.1):
+            if sim.depth[me] == 0 and me != 0:
                 sim.do_return(gen_expr(rng, vals) if rng.random() < 0.7 else None)
     # remaining fibers fall off their end; measure those switches too
     p = sim.finish()
@@ -477,7 +477,7 @@ def moved(p):
 
 def coq_cases(progs, tag):
     terms = ['run_case_w FiberArms.poke_nil_on_resume "%s"%%string' % wire(p) for p in progs]
-    vals = yvlib.coq_eval(["YVGen:FiberArms", "YV:FiberLang"], terms, shard_size=200, tag=tag,
+    vals = yvlib.coq_eval(["YVGen:FiberArms", "YV:FiberLang"], terms, shard_size=60, tag=tag,
                           preamble="Open Scope string_scope.")
     res = []
     for v in vals:
@@ -697,8 +697,11 @@ def run(ctx):
             cases.append((moved(cases[i][0]), None, "moved", i))
     log("[C09] %d programs (%d metamorphic partners)" % (len(cases), len(partners)))
 
+    import time
+    t0 = time.time()
     progs = [c[0] for c in cases]
     cq = coq_cases(progs, "C09")
+    log("[C09] model evaluated in %.1fs" % (time.time() - t0))
     lines = []
     idx = []
     for i, c in enumerate(cq):
@@ -711,7 +714,9 @@ def run(ctx):
             continue
         idx.append(i)
         lines.append("run - " + hx(c["src"]))
+    t0 = time.time()
     recs = yvlib.run_harness(dbg, lines, case_timeout_ms=5000)
+    log("[C09] %d programs run in %.1fs" % (len(lines), time.time() - t0))
     impl = {}
     for i, r in zip(idx, recs):
         impl[i] = impl_result(r)
@@ -788,8 +793,12 @@ def run(ctx):
     rng.shuffle(rest)
     tsel += rest[:(250 if quick else 2500)]
     tl = ["trace - 200000 " + hx(cq[i]["src"]) for i in tsel]
+    t0 = time.time()
     trd = yvlib.run_harness(dbg, tl, case_timeout_ms=8000)
+    log("[C09] %d dev traces in %.1fs" % (len(tl), time.time() - t0))
+    t0 = time.time()
     trr = yvlib.run_harness(rel, tl, case_timeout_ms=8000)
+    log("[C09] %d release traces in %.1fs" % (len(tl), time.time() - t0))
     n_tr = 0
     n_sw = 0
     ptr_bad = 0
